@@ -87,6 +87,9 @@ def run(prog, world, sem, rep):
                 if a.op == "call" and a.info == "std::cmp::Ord::min" and any(sem.label(x) == ONE for x in a.args):
                     notes.append("min(.,1)")
                     continue
+                if lab == ONE:
+                    notes.append("the constant 1")
+                    continue
                 if lab is None:
                     bad.append("computed value %s" % show(a, 4))
                     continue
@@ -100,6 +103,30 @@ def run(prog, world, sem, rep):
                         return sem.label(resolve(f[1])) == lab
                     return False
                 ok, d = site_guarded(sem, vis, bb, fp)
+                if not ok:
+                    # the bound may be enforced on the assembled value just before the save (`if p.f > 1 { p.f = 1 }`): the comparison is then
+                    # on a value that has the incoming one among its alternatives; the incoming alternative must not reach the save on any path
+                    # that avoids the edges on which the bound was observed
+                    def fp2(f, resolve, lab=lab):
+                        if f[0] == "cmp" and f[1] == "Le":
+                            return lab in sem.labels(resolve(f[2])) and sem.label(resolve(f[3])) == ONE
+                        return fp(f, resolve)
+                    pe = set()
+                    for blk in vis.body.blocks:
+                        if blk.term.kind == "switch" and blk.idx in vis.blocks:
+                            for succ, fl in sem.edge_facts(vis.be, blk.idx).items():
+                                if any(fp2(f, vis.resolve) for f in fl):
+                                    pe.add((blk.idx, succ))
+                    if pe:
+                        be2 = world.be_spec(vis.body, frozenset(vis.removed) | frozenset(pe))
+                        still = False
+                        if bb in be2.cfg.live:
+                            for (b2, k2, c2, key2, val2, e2) in sem.storage_sites(be2):
+                                if b2 == bb and c2 == cell and k2 == kind:
+                                    wv2 = sem.written_value(k2, c2, vis.resolve(val2))
+                                    still = wv2 is None or lab in {sem.label(x) for x in alts(world, sem.field_of(wv2, fld))}
+                        if not still:
+                            ok, d = True, "the incoming value reaches the save only through an edge on which value <= 1 was observed (%d edge(s))" % len(pe)
                 if ok:
                     notes.append("incoming %s: %s" % (lab[-1] if lab else lab, d))
                 else:
@@ -162,6 +189,9 @@ def run(prog, world, sem, rep):
                         continue
                     if m is not None and lab is not None and lab[0] == "param" and lab[4] and lab[4][0] == m:
                         touched.add(f)
+                        continue
+                    if m is not None and f == "er_threshold" and lab == ONE:
+                        touched.add(f)   # the cap itself, however it is written (min(v, 1) or `if v > 1 { v = 1 }`)
                         continue
                     if m is not None and f == "er_threshold" and a.op == "call" and a.info == "std::cmp::Ord::min":
                         inner = [sem.label(y) for x in a.args for y in alts(world, x)]
